@@ -14,7 +14,7 @@ struct Opened {
     sb_error_t rc;
     Opened(const std::string& route, const std::vector<uint8_t>& v)
     {
-        memset(&parser, 0, sizeof(parser));
+        memset(&parser, SBH_FILL, sizeof(parser));
         if (route == "m") {
             buf = new ExactBuf(v);
             rc = sb_binary_file_parser_init_from_buffer(&parser, buf->p, buf->n);
@@ -65,7 +65,7 @@ SB_OP(faccseq)
             if (!f.empty())
                 memcpy(block, f.data(), f.size());
             sb_binary_file_parser_t parser;
-            memset(&parser, 0, sizeof(parser));
+            memset(&parser, SBH_FILL, sizeof(parser));
             sb_error_t rc = sb_binary_file_parser_init_from_buffer(&parser, block, f.size());
             add(out, (long long)rc);
             sb_binary_file_parser_destroy(&parser);
@@ -75,7 +75,7 @@ SB_OP(faccseq)
         for (auto& f : files) {
             int fd = make_fd(f);
             sb_binary_file_parser_t parser;
-            memset(&parser, 0, sizeof(parser));
+            memset(&parser, SBH_FILL, sizeof(parser));
             sb_error_t rc = sb_binary_file_parser_init_from_file(&parser, fd);
             add(out, (long long)rc);
             sb_binary_file_parser_destroy(&parser);
